@@ -32,6 +32,10 @@ POS = (0.0, 1e-9, 0.1, 0.5, 0.731, 1 - 1e-9, 1.0)
 LANES = [(f, s, b, p) for f in FAMS for s in SLOPES for b in BRACKETS for p in POS]
 
 
+# zero-width brackets sitting exactly on a root (families whose formula does not divide by the bracket width)
+ZERO_WIDTH = [('linear', 1.0, (0.3, 0.3), 0.0), ('cubic', 1e3, (-2.0, -2.0), 0.0), ('arctan', 1e-6, (5.0, 5.0), 0.0)]
+
+
 def lane_arrays(lanes):
     fam = np.array([FAMS.index(l[0]) for l in lanes])
     s = np.array([l[1] for l in lanes])
@@ -81,6 +85,7 @@ def cases(tier, seed):
     out.append(('invalid',))
     out.append(('scalar',))
     out.append(('dtypes',))
+    out.append(('zero-width',))
     return out
 
 
@@ -178,6 +183,21 @@ def run_case(case):
         r.hit('tiled')
         r['sample'] = {'composition': 'tiled', 'rotation': rot, 'lengths': [1, 2, 3, 10, 100, 1000]}
         return r
+    if kind == 'zero-width':
+        # a degenerate but valid bracket [x0, x0] with f(x0) = 0, alone and next to lanes that need many iterations
+        core = core_lanes()
+        for z in ZERO_WIDTH:
+            for solver in ('bisect', 'chandrupatla'):
+                check(solver, [z], lambda i: 'zero-width bracket alone')
+                for k, lane in enumerate(core):
+                    check(solver, [z, lane], lambda i: f'zero-width bracket first, core lane {k} second')
+                    check(solver, [lane, z], lambda i: f'core lane {k} first, zero-width bracket second')
+                    r.state((solver, 'zero-width', z, k))
+                check(solver, [z] + core + [z], lambda i: 'zero-width brackets around the 60-lane core')
+        r.nontriv(len(ZERO_WIDTH) * 2 * len(core))
+        r.hit('zero-width')
+        r['sample'] = {'composition': 'zero-width bracket at a root', 'lanes': [list(map(str, z)) for z in ZERO_WIDTH]}
+        return r
     if kind == 'dtypes':
         # brackets handed over as integer or float32 arrays (valid element-wise brackets with integer end points)
         from copulas.optimize import bisect, chandrupatla
@@ -214,6 +234,21 @@ def run_case(case):
                     r.violation('C18:chandrupatla:scalar-differs', f'chandrupatla: scalar call on lane {lane} gives '
                                 f'{float(np.ravel(x)[0])!r}, one-element vector {float(v[0])!r}', case=case)
             r.state(('scalar', k))
+        # plain Python floats end to end (brackets AND function values), on one lane per family x bracket
+        from copulas.optimize import chandrupatla
+        for lane in [l for l in LANES if l[1] == 1.0 and l[3] == 0.731]:
+            f, a, b, root, w = make_f([lane])
+            r.tr()
+            r.ev()
+            try:
+                x = chandrupatla(lambda t: float(f(np.array([t]))[0]), float(a[0]), float(b[0]))
+            except Exception as e:
+                r.violation(f'C18:chandrupatla:raises:{type(e).__name__}:python-floats', f'chandrupatla raised {type(e).__name__}: '
+                            f'{e} for lane {lane} given as plain Python floats (function values included)', case=case)
+                continue
+            if not (np.shape(x) == () and abs(float(x) - root[0]) <= 1e-9 * w[0]):
+                r.violation('C18:chandrupatla:wrong-root:python-floats', f'chandrupatla: lane {lane} as plain Python floats '
+                            f'returned {x!r}, root is {root[0]!r}', case=case)
         r.nontriv(len(LANES))
         r.hit('scalar')
         r['sample'] = {'composition': 'scalar', 'lanes': len(LANES)}
@@ -271,5 +306,5 @@ def finish(agg, tier):
     engine.require(agg['hits'].get('solo', 0) == len(LANES), 'solo lanes not exhausted')
     engine.require(agg['hits'].get('pairs', 0) >= 3600, 'pairs not exhausted')
     engine.require(agg['hits'].get('invalid', 0) >= 2000, 'invalid brackets under-explored')
-    for k in ('full', 'tiled', 'scalar', 'dtypes'):
+    for k in ('full', 'tiled', 'scalar', 'dtypes', 'zero-width'):
         engine.require(agg['hits'].get(k, 0) >= 1, f'{k} missing')
